@@ -1498,6 +1498,12 @@ class Engine:
     def construct(self, cv, args, kw, st, node):
         if self.is_subclass(cv.name, 'BaseException'):
             return [(st, ExcVal(cv.name))]
+        entn = self.find_method(cv.name, '__new__')
+        if entn is not None and entn[2] is not None:
+            c_new = self.reg.contracts.get((entn[0].relpath, entn[1]))
+            if c_new is not None and not c_new.inline:
+                # a class whose instances are made by __new__ (tuple subclasses): the call is the call of __new__ under its contract
+                return list(self.call_user(UserFn(entn[0], entn[1], entn[2], cv), args, kw, st, node))
         ent = self.find_method(cv.name, '__init__')
         ref = st.new_obj(cv.name, {})
         if ent is None or ent[2] is None:
@@ -1913,7 +1919,9 @@ class Engine:
                 s = self.fork_exc(s, ok, 'IndexError', node)
                 if s.dead:
                     continue
-                nv = v_store(vv, simp(j), val)
+                if isinstance(val, Ref):
+                    self.assumptions_used.add('an object stored into a sequence is stored by value (later mutation through another alias is not tracked)')
+                nv = v_store(vv, simp(j), self.snapshot(val, s))
                 out += self.assign(target.value, nv, s, node)
             return out
         raise Unsupported('assignment target %s' % target.__class__.__name__)
